@@ -7,7 +7,9 @@ from collections import Counter
 random.seed(int(sys.argv[1]) if len(sys.argv)>1 else 1)
 files = sorted(glob.glob('/repo/example/test/*.ok.nmfu')+glob.glob('/repo/example/*.nmfu'))
 def guided(post, pctx, cl, n):
-    m=Machine(post,pctx,True); inp=[]
+    try: m=Machine(post,pctx,True)
+    except Stop: return []
+    inp=[]
     for _ in range(n):
         if m.done: break
         st=m.st; trs=post.tr.get(st, [])
@@ -20,32 +22,33 @@ def guided(post, pctx, cl, n):
         try: m.feed(b)
         except Stop: break
     return inp
-tot=0; nd=0; dist=Counter()
-for f in files:
-    src=open(f).read()
-    if 'eof-support' in src.splitlines()[0] or 'macro' in src: continue
-    try: pre, post, pctx = compile_both(f, ("-O1",))
-    except Exception as e: continue
-    tree=nmfu.parser.parse(src, start='start'); cl=classes(post); shown=0
-    for trial in range(300):
-        inp=guided(post,pctx,cl,random.randint(1,40))
-        try:
-            r=run_ref(tree, inp); m=Machine(post,pctx,True)
-            for b in inp:
-                if m.done: break
-                m.feed(b)
-        except Unsupported as e: print("UNSUP", os.path.basename(f), e); break
-        except Stop: continue
-        tot+=1; dist[r.result.split('_')[0]]+=1; dist['events']+=len(r.trace)
-        mt=[e for e in m.trace if e[0] in ('HOOK','YIELD')]; rt=r.trace; mres=m.done or 'INCOMPLETE'
-        if r.result=='INCOMPLETE': ok = mres=='INCOMPLETE' and mt==rt[:len(mt)]
-        elif r.result=='FAIL': ok = mres=='FAIL' and mt==rt[:len(mt)]
-        else:
-            fin=[e for e in m.trace if e[0] in ('DONE','FINISH')]; msnap=fin[-1][-1] if fin else None
-            ok = mres==r.result and mt==rt and msnap==r.snap()
-            if not ok and r.result=='DONE' and mres=='FAIL' and r.pos<len(inp) and mt==rt: ok=True; dist['trailing-byte-after-open-ended-end']+=1
-        if not ok:
-            nd+=1
-            if shown<2:
-                shown+=1; print("DIFF", os.path.basename(f), bytes(inp), "\n   ref ", r.result, r.pos, rt[-2:], r.snap(), "\n   mach", mres, m.consumed, mt[-2:], m.snap())
-print("runs",tot,"diffs",nd, dict(dist))
+if __name__=='__main__':
+    tot=0; nd=0; dist=Counter()
+    for f in files:
+        src=open(f).read()
+        if 'eof-support' in src.splitlines()[0] or 'macro' in src: continue
+        try: pre, post, pctx = compile_both(f, ("-O1",))
+        except Exception as e: continue
+        tree=nmfu.parser.parse(src, start='start'); cl=classes(post); shown=0
+        for trial in range(300):
+            inp=guided(post,pctx,cl,random.randint(1,40))
+            try:
+                r=run_ref(tree, inp); m=Machine(post,pctx,True)
+                for b in inp:
+                    if m.done: break
+                    m.feed(b)
+            except Unsupported as e: print("UNSUP", os.path.basename(f), e); break
+            except Stop: continue
+            tot+=1; dist[r.result.split('_')[0]]+=1; dist['events']+=len(r.trace)
+            mt=[e for e in m.trace if e[0] in ('HOOK','YIELD')]; rt=r.trace; mres=m.done or 'INCOMPLETE'
+            if r.result=='INCOMPLETE': ok = mres=='INCOMPLETE' and mt==rt[:len(mt)]
+            elif r.result=='FAIL': ok = mres=='FAIL' and mt==rt[:len(mt)]
+            else:
+                fin=[e for e in m.trace if e[0] in ('DONE','FINISH')]; msnap=fin[-1][-1] if fin else None
+                ok = mres==r.result and mt==rt and msnap==r.snap()
+                if not ok and r.result=='DONE' and mres=='FAIL' and r.pos<len(inp) and mt==rt: ok=True; dist['trailing-byte-after-open-ended-end']+=1
+            if not ok:
+                nd+=1
+                if shown<2:
+                    shown+=1; print("DIFF", os.path.basename(f), bytes(inp), "\n   ref ", r.result, r.pos, rt[-2:], r.snap(), "\n   mach", mres, m.consumed, mt[-2:], m.snap())
+    print("runs",tot,"diffs",nd, dict(dist))
